@@ -54,8 +54,8 @@ CHECKS.update({
          "DESIGN.md section 6, C07"),
  "C14": ("model_checking",
          "deviation-bounded exhaustive lattice search (E1; thorough = full product) over bitmap height x aspect x width x metrics x format x glyph-order shape",
-         "Quick: <=3 deviations; thorough: the full 21 600-state product. Image bytes, ppem, placement judged with the exact pixel size, pixel advance, consecutive runs; unrepresentable cases must raise.",
-         "bitmap_resolution equals the PNG height, as resvg -h guarantees in the real pipeline; the CLI chain itself is exercised by C20/C09.",
+         "Quick: <=3 deviations; thorough: <=6 deviations over 10 dimensions. Image bytes, ppem, placement judged with the exact pixel size, pixel advance, consecutive runs; unrepresentable cases must raise. Plus 8 real command-line builds ({cbdt, sbix} x pngquant on/off x zopflipng on/off): stored bytes == the PNG of the last stage switched on.",
+         "In the lattice the PNGs are generated (Pillow) and fed to _generate_color_font; incremental behaviour of the CLI chain is C09's, option routing C20's.",
          "DESIGN.md section 6, C14"),
  "C19": ("model_checking",
          "exhaustive full-product enumeration of isometric copies built with the real code",
